@@ -151,6 +151,43 @@ fn c03_diverges(s: &str, utf8: bool) -> bool {
     }
 }
 
+/// complete, aborted and skipped sequences of every kind the grammar knows
+fn seq_pool() -> Vec<String> {
+    let mut v: Vec<String> = Vec::new();
+    for f in "cDEMH78Zq".chars() {
+        v.push(format!("\x1b{}", f));
+    }
+    v.extend(["\x1b#8", "\x1b#3", "\x1b%G", "\x1b%@", "\x1b(0", "\x1b)B", "\x1b(U", "x", "é", "\n", "\r", "\x0e", "\x0f", "\x07"].iter().map(|s| s.to_string()));
+    for intro in ["\x1b[", "\u{9b}"] {
+        for f in "@ABCDEFGHJKLMPXacdefghlmrzt".chars() {
+            v.push(format!("{}{}", intro, f));
+            v.push(format!("{}7{}", intro, f));
+            if intro.len() == 2 {
+                v.push(format!("{}3;4{}", intro, f));
+            }
+        }
+        for body in ["?25", "?1;2", "5;", ";", "1;2;3;4", "?", "38;5;1", " ", ">0"] {
+            v.push(format!("{}{}h", intro, body));
+            v.push(format!("{}{}\x18", intro, body));
+            v.push(format!("{}{}\x1a", intro, body));
+            v.push(format!("{}{}$p", intro, body));
+            v.push(format!("{}{}\x07m", intro, body));
+        }
+    }
+    for intro in ["\x1b]", "\u{9d}"] {
+        for code in ["0", "1", "2", "7", "x"] {
+            for term in ["\x07", "\u{9c}", "\x1b\\"] {
+                v.push(format!("{}{};t{}", intro, code, term));
+            }
+        }
+        v.push(format!("{}0;a\x1bxb\x07", intro));
+        v.push(format!("{}0\x07", intro));
+        v.push(format!("{}0;\x07", intro));
+        v.push(format!("{}12;q\x07", intro));
+    }
+    v
+}
+
 /// DFS over all strings whose proper prefixes keep the reference outside ground
 fn c03_dfs(cx: &mut Ctx, prefix: &mut String, depth: usize, max: usize, osc_cap: usize, count: &mut u64) -> bool {
     // evaluate this string (both modes)
@@ -280,6 +317,33 @@ impl Check for C03Check {
                         c03_run(cx, &format!("\u{9b}?{}{}", r, f), false, "digits");
                     }
                 }
+            }
+        }
+        // all ordered pairs of a pool of complete, aborted and skipped sequences: interaction
+        // through state that survives a return to ground
+        if cx.begin_group("sequence pairs") {
+            let pool = seq_pool();
+            let mut k = 0u64;
+            let mut done = true;
+            'pairs: for a in &pool {
+                for b in &pool {
+                    k += 1;
+                    if !cx.mine(k) {
+                        continue;
+                    }
+                    let s = format!("{}{}", a, b);
+                    c03_run(cx, &s, true, "pair");
+                    if k % 3 == 0 {
+                        c03_run(cx, &s, false, "pair");
+                    }
+                    if k % 4096 == 0 && (cx.used() > 0.85 || cx.out_of_time()) {
+                        done = false;
+                        break 'pairs;
+                    }
+                }
+            }
+            if done {
+                cx.stats.exhaustive_parts.insert(format!("all {} ordered pairs of a pool of {} complete / aborted / skipped sequences", pool.len() * pool.len(), pool.len()));
             }
         }
         // random long strings and two-sequence concatenations
